@@ -305,7 +305,7 @@ def run_shard(ctx, spec):
         os.makedirs(log, exist_ok=True)
         gen = os.path.join(tmp, "gen-ok-large")
         if not os.path.exists(gen):
-            os.symlink(ctx.paths["fakegen"], gen)
+            core.link_tool(ctx.paths["fakegen"], gen)
         from .. import wire as _wire
         with open(os.path.join(log, "gen-ok-large.reply"), "wb") as f:
             f.write(_wire.enc_reply([]))
@@ -473,7 +473,7 @@ def cmdline_family(ctx, idx, n):
     os.makedirs(log, exist_ok=True)
     gen = os.path.join(tmp, "gen-ok-x")
     if not os.path.exists(gen):
-        os.symlink(ctx.paths["fakegen"], gen)
+        core.link_tool(ctx.paths["fakegen"], gen)
     D = [[], ["-D", ""], ["-D", "A"], ["-D", "1x"], ["-D", "A", "-D", "A"]]
     A = [[], ["-A", "All"], ["-A", "Deprecated"], ["-A", "deprecated"], ["-A", ""], ["-A", "Nope"], ["--allow", "BrokenDocLink", "-A", "ALL"]]
     G = [[], ["-G", ""], ["-G", " "], ["-G", ","], ["-G", "=,"], ["-G", "/nonexistent/gen"], ["-G", gen], ["-G", gen + ",a=b,c"],
